@@ -90,7 +90,7 @@ def structural_paths(summ):
     """The base path plus the paths that differ from it only in the kind of the current scope ('has' decisions)."""
     out = []
     for ps in summ.paths:
-        if ps.raised is None and all((not v) or tag[0] == 'has' for tag, v in ps.decisions):
+        if ps.raised is None and all((not v) or tag[0] in ('has', 'ident-is') for tag, v in ps.decisions):
             out.append(ps)
     return out
 
@@ -187,6 +187,12 @@ def binder_records(repo):
                 if b is None:
                     rec['missing'].append(s.variant)
                     continue
+                # ... also when an identifier of the statement happens to equal a constant the code compares it with
+                for sp in structural_paths(s):
+                    if sp is not bp and find_bind(sp, binder) is None:
+                        why = ', '.join('%s is one of %s' % (gen(str(t[1])), list(t[2])) for t, v in sp.decisions if v and t[0] == 'ident-is')
+                        rec['missing'].append('%s when %s' % (s.variant, why or 'the scope is of another kind'))
+                        break
                 rec['binds'].append((s, bp, binder, b))
                 rec['line'] = src(b.get('srcline'))
                 if b.get('cls') != EXPECTED_CLASS[binder['kind']]:
@@ -503,17 +509,37 @@ def statement_order_records(repo):
 # every summarised construct, in or out of the name-resolution domain (C08 / C11 / C17)
 # ---------------------------------------------------------------------------
 
+def _nested_scopes(node):
+    out = []
+    if getattr(node, 'nested_scope', False):
+        out.append(node)
+    for v in getattr(node, 'fields', {}).values():
+        for x in (v if isinstance(v, list) else [v]):
+            if hasattr(x, 'fields'):
+                out.extend(_nested_scopes(x))
+    return out
+
+
 def binding_hygiene_records(repo):
     """Per construct: bindings registered under something that is not a string; bindings of one construct registered in
     *different* regions at the same location (a join sorts alternatives by location: a tie is broken by set order);
     text searches whose search string is not the bare identifier."""
-    out = {'nonstr': [], 'ties': [], 'glued': [], 'foreign_params': [], 'n': 0}
+    out = {'nonstr': [], 'ties': [], 'glued': [], 'foreign_params': [], 'spurious': [], 'n': 0}
     for cls, summs in summaries(repo).items():
         for s in summs:
             for ps in ok_paths(s):
                 out['n'] += 1
                 by_loc = {}
                 owners = {}
+                # bindings of identifiers that the construct reads but does not bind (`for obj.attr in xs` reads obj)
+                if cls not in DOMAIN_EXCLUDED and cls not in ('Import', 'ImportFrom'):     # every alias of an import binds
+                    ref = {bd['ident_path'] for bd in pyref.binders(s.root) if bd['ident_path']}
+                    nested = [n.path for n in _nested_scopes(s.root)]
+                    for b in ps.binds:
+                        ip = b.get('ident_path')
+                        if ip and ref and ip not in ref and b.get('cls') in ('AssignedName', 'ArgumentName', 'ImportedName') \
+                                and not any(ip.startswith(n + '.') for n in nested):
+                            out['spurious'].append((cls, s.variant, gen(ip), src(b.get('srcline'))))
                 for b in ps.binds:
                     if b.get('cls') == 'ArgumentName' and b.get('ident_path') and isinstance(b.get('func'), object):
                         # the `arguments` node the parameter is written in: 'node.args.defaults[0].args.args[0].arg' -> 'node.args.defaults[0]'
